@@ -10,16 +10,9 @@ Definition floatlike (n:num) : Prop :=
   match n with NFlt _ _ | NNegZero | NInf _ | NNaN => True | _ => False end.
 Definition numlike (isint:bool) (n:num) : Prop := if isint then intlike n else floatlike n.
 
-(* "value_min <= n" in the exact order; the disjuncts name the two ways a NaN escapes it *)
-Definition ge_lo (lo:option num) (n:num) : Prop :=
-  forall b, lo = Some b -> b = NNaN \/ n = NNaN \/ num_le b n = true.
-Definition le_hi (hi:option num) (n:num) : Prop :=
-  forall b, hi = Some b -> b = NNaN \/ n = NNaN \/ num_le n b = true.
-Definition in_bounds (lo hi:option num) (n:num) : Prop := ge_lo lo n /\ le_hi hi n.
-(* for integers there is no NaN value *)
-Definition in_bounds_int (lo hi:option num) (n:num) : Prop :=
-  (forall b, lo = Some b -> b <> NNaN -> num_le b n = true) /\
-  (forall b, hi = Some b -> b <> NNaN -> num_le n b = true).
+(* value_min <= n <= value_max in the exact order (false whenever a NaN is involved) *)
+Definition in_bounds (lo hi:option num) (n:num) : Prop :=
+  (forall b, lo = Some b -> num_le b n = true) /\ (forall b, hi = Some b -> num_le n b = true).
 Definition size_ok (lo hi:option Z) (k:nat) : Prop :=
   (forall m, lo = Some m -> (m <= Z.of_nat k)%Z) /\ (forall m, hi = Some m -> (Z.of_nat k <= m)%Z).
 Definition elem_ok (isint:bool) (c:lconv) (v:pyv) : Prop :=
@@ -85,27 +78,32 @@ Proof.
   revert H. apply err_at_opt_not_ok.
 Qed.
 
-Lemma check_value_ok isint lo hi v ows u :
-  check_value isint lo hi v ows = Ok u ->
-  (forall b, lo = Some b -> num_lt v b = false) /\ (forall b, hi = Some b -> num_lt b v = false).
-Proof.
-  unfold check_value. intro H. apply bind_ok in H as (? & H1 & H2). split; intros b ->.
-  - revert H1. destruct (num_lt v b); intro H1; [exfalso; revert H1; apply bound_err_not_ok | reflexivity].
-  - revert H2. destruct (num_lt b v); intro H2; [exfalso; revert H2; apply bound_err_not_ok | reflexivity].
-Qed.
-
 Lemma check_value_bounds isint lo hi v ows u :
   check_value isint lo hi v ows = Ok u -> in_bounds lo hi v.
 Proof.
-  intro H. apply check_value_ok in H as [Hlo Hhi]. split; intros b Hb.
-  - specialize (Hlo b Hb).
-    destruct (num_eq_nan_dec b) as [->|Nb]; [left; reflexivity|].
-    destruct (num_eq_nan_dec v) as [->|Nv]; [right; left; reflexivity|].
-    right; right. apply num_lt_false_le; assumption.
-  - specialize (Hhi b Hb).
-    destruct (num_eq_nan_dec b) as [->|Nb]; [left; reflexivity|].
-    destruct (num_eq_nan_dec v) as [->|Nv]; [right; left; reflexivity|].
-    right; right. apply num_lt_false_le; assumption.
+  unfold check_value. intro H. apply bind_ok in H as (? & H1 & H2). split; intros b ->.
+  - revert H1. destruct (num_le b v); cbn [negb]; intro H1; [reflexivity | exfalso; revert H1; apply bound_err_not_ok].
+  - revert H2. destruct (num_le v b); cbn [negb]; intro H2; [reflexivity | exfalso; revert H2; apply bound_err_not_ok].
+Qed.
+
+Lemma num_le_nan_l b : num_le NNaN b = false.
+Proof. reflexivity. Qed.
+Lemma num_le_nan_r a : num_le a NNaN = false.
+Proof. unfold num_le. destruct (xr_of a); reflexivity. Qed.
+
+(* with a bound declared, a value within bounds is not NaN *)
+Lemma in_bounds_not_nan lo hi n : in_bounds lo hi n -> lo <> None \/ hi <> None -> n <> NNaN.
+Proof.
+  intros [Hlo Hhi] [N|N] ->.
+  - destruct lo as [b|]; [|congruence]. specialize (Hlo b eq_refl). rewrite num_le_nan_r in Hlo. discriminate.
+  - destruct hi as [b|]; [|congruence]. specialize (Hhi b eq_refl). rewrite num_le_nan_l in Hhi. discriminate.
+Qed.
+(* and no bound is NaN *)
+Lemma in_bounds_bound_not_nan lo hi n : in_bounds lo hi n -> lo <> Some NNaN /\ hi <> Some NNaN.
+Proof.
+  intros [Hlo Hhi]. split; intros E.
+  - specialize (Hlo _ E). rewrite num_le_nan_l in Hlo. discriminate.
+  - specialize (Hhi _ E). rewrite num_le_nan_r in Hhi. discriminate.
 Qed.
 
 Lemma check_size_ok lo hi size ows u :
@@ -133,7 +131,7 @@ Qed.
 
 Lemma int_from_number_intlike x ws n : int_from_number x ws = Ok n -> intlike n.
 Proof.
-  destruct x as [| |[z|m e| |neg| |b]|]; cbn; intro H; try (exfalso; revert H; apply err_at_not_ok); try discriminate.
+  destruct x as [| |[z|m e| |neg| |b]|]; cbn; intro H; try (exfalso; revert H; apply err_at_not_ok).
   - injection H as <-; exact I.
   - destruct (flt_integral m e); [injection H as <-; exact I | exfalso; revert H; apply err_at_not_ok].
   - injection H as <-; exact I.
@@ -143,7 +141,8 @@ Qed.
 Lemma float_from_number_floatlike x ws n : float_from_number x ws = Ok n -> floatlike n.
 Proof.
   destruct x as [| |[z|m e| |neg| |b]|]; cbn; intro H; try (exfalso; revert H; apply err_at_not_ok).
-  - eapply float_of_Z_floatlike; eassumption.
+  - destruct (float_of_Z z) eqn:E; try (exfalso; revert H; apply err_at_not_ok).
+    injection H as <-. eapply float_of_Z_floatlike; eassumption.
   - injection H as <-; exact I.
   - injection H as <-; exact I.
   - injection H as <-; exact I.
@@ -158,13 +157,6 @@ Qed.
 
 Lemma intlike_not_nan n : intlike n -> n <> NNaN.
 Proof. destruct n; cbn; intros H; try contradiction; discriminate. Qed.
-
-Lemma in_bounds_int_of n lo hi : intlike n -> in_bounds lo hi n -> in_bounds_int lo hi n.
-Proof.
-  intros Hi [Hlo Hhi]. pose proof (intlike_not_nan n Hi) as Nn. split; intros b Hb Nb.
-  - destruct (Hlo b Hb) as [E|[E|E]]; [contradiction|contradiction|exact E].
-  - destruct (Hhi b Hb) as [E|[E|E]]; [contradiction|contradiction|exact E].
-Qed.
 
 (* ---------------------------------------------------------------- from_words: scalar types *)
 Section Domains.
@@ -196,11 +188,8 @@ Section Domains.
   Lemma int_domain c ws v :
     from_words pyeval (CInt c) ws = Ok v ->
     (v = PNone /\ allow_none c = true) \/ v = PAuto \/
-    exists n, v = PNum n /\ intlike n /\ in_bounds_int (vmin c) (vmax c) n.
-  Proof.
-    cbn [from_words]. intro H. apply number_conv_domain in H as [H|[H|(n & -> & Hn & Hb)]]; auto.
-    right; right. exists n. cbn in Hn. auto using in_bounds_int_of.
-  Qed.
+    exists n, v = PNum n /\ intlike n /\ in_bounds (vmin c) (vmax c) n.
+  Proof. cbn [from_words]. apply number_conv_domain. Qed.
 
   Lemma float_domain c ws v :
     from_words pyeval (CFloat c) ws = Ok v ->
@@ -265,6 +254,22 @@ Section Domains.
     v = PNone \/ v = PAuto \/
     exists l, v = PList l /\ size_ok (smin c) (smax c) (length l) /\ Forall (elem_ok false c) l.
   Proof. cbn [from_words]. apply numbers_conv_domain. Qed.
+
+  (* a float parameter with a bound never yields NaN *)
+  Lemma float_bounded_never_nan c ws :
+    vmin c <> None \/ vmax c <> None -> from_words pyeval (CFloat c) ws <> Ok (PNum NNaN).
+  Proof.
+    intros B H. apply float_domain in H as [[H _]|[H|(n & E & _ & Hb)]]; try discriminate.
+    injection E as <-. exact (in_bounds_not_nan _ _ _ Hb B eq_refl).
+  Qed.
+  Lemma floats_bounded_never_nan c ws l :
+    lvmin c <> None \/ lvmax c <> None -> from_words pyeval (CFloats c) ws = Ok (PList l) -> ~ In (PNum NNaN) l.
+  Proof.
+    intros B H Hin. apply floats_domain in H as [H|[H|(l' & E & _ & Hall)]]; try discriminate.
+    injection E as <-. rewrite Forall_forall in Hall. specialize (Hall _ Hin).
+    destruct Hall as [[E _]|[[E _]|(n' & E & _ & Hb)]]; try discriminate.
+    injection E as <-. exact (in_bounds_not_nan _ _ _ Hb B eq_refl).
+  Qed.
 
   (* an int-typed parameter never yields a float of any kind *)
   Lemma int_never_float c ws n :
